@@ -281,6 +281,8 @@ class C16(Campaign):
         if only is None and "logfile" in sc["files"]:
             self._interrupted_call(sc)
         if only is None:
+            self._interrupted_step(sc)
+        if only is None:
             self._resume_and_crash(sc, disk, calls)
             self._rerun_over_stale_files(sc, disk)
             self._continue_after_close(sc)
@@ -380,6 +382,63 @@ class C16(Campaign):
                     f"{'a line without newline; ' if not text.endswith(chr(10)) else ''}malformed rows {bad[:2]!r} (header has {ncol} columns)",
                     f"interrupted call #{fail_at}")
         res.cover.add(f"interrupted|{sc['driver']}|{sc['files'].get('logging_mode')}")
+
+    def _interrupted_step(self, sc):
+        """Fault: the run dies with an exception in the MIDDLE of a step (the calculator fails while a trial is being
+        evaluated; the user's script - or the interpreter on its way out - then closes the simulation).  Whatever the
+        package does on the way out, the restart file, once one has been written by an observer call, must still hold
+        the state that the last completed observer call saved: a half-made trial is not a state that was saved."""
+        res = self.res
+        files = sc["files"]
+        if "restart_file" not in files or sc["driver"] in ("ForceBias", "AdaptiveForceBias"):
+            return
+        rnd = random.Random(sc["seed"] + 29)
+        disk, w, rec = self._deploy(sc)
+        mc = w.mc
+        calc = getattr(w.atoms, "calc", None)
+        n = sum(s["n"] for s in sc["steps"])
+        if mc.default_restart is None or calc is None or not hasattr(calc, "calculate") or n < 1:
+            mc.close()
+            return
+        state = {"calls": 0, "fail_at": rnd.randint(2, 2 + 2 * n)}
+        inner = calc.calculate
+
+        def failing(*a, **k):
+            state["calls"] += 1
+            if state["calls"] == state["fail_at"]:
+                raise RuntimeError("simulated failure of the calculator")
+            return inner(*a, **k)
+
+        calc.calculate = failing
+        import warnings
+        warnings.simplefilter("ignore")
+        interrupted = False
+        try:
+            mc.run(n)
+        except RuntimeError as e:
+            interrupted = "simulated failure of the calculator" in str(e)
+        except Exception:  # noqa: BLE001 - unrelated failure: not this sub-check's business
+            pass
+        try:
+            mc.close()
+        except Exception:  # noqa: BLE001
+            return
+        saved = [c for c in rec.calls if c["role"] == "restart"]
+        if not interrupted or not saved:
+            return
+        res.count("fault.calculator_raises_mid_step")
+        res.count("evaluations")
+        cur = disk.files[files["restart_file"]["name"]].durable
+        try:
+            ok = json.loads(cur) == saved[-1]["state_json"]
+            why = "loads, but to a state that no observer call saved"
+        except Exception as e:  # noqa: BLE001
+            ok, why = False, f"{type(e).__name__}: {str(e)[:100]}; {len(cur)} chars on disk"
+        if not ok:
+            self._v("restart_not_a_saved_state_after_interrupted_run", f"file=restart|driver={sc['driver']}",
+                    f"the calculator raised during evaluation #{state['fail_at']} (inside a step, {len(saved)} restart calls "
+                    f"completed before); afterwards the restart file {why}", f"calculator failure at evaluation #{state['fail_at']}")
+        res.cover.add(f"interrupted_step|{sc['driver']}|{files.get('logging_mode')}")
 
     def _continue_after_close(self, sc):
         """Fault: the user closes the simulation (its files) and then runs the same object again.  Whether the package
